@@ -1309,13 +1309,17 @@ package gedcom
 //@   ghost lower string = ""
 //@   oncall strings.ToLower#1 check whole-word: arg0 == word
 //@   oncall strings.ToLower#1 do lower = result
-//@   oncall wordInWords#1 check about-list: arg0 == lower && arg1 == DateWordsAbout
-//@   oncall wordInWords#1 do inAbout = result
-//@   oncall wordInWords#2 check after-list: arg0 == lower && arg1 == DateWordsAfter
-//@   oncall wordInWords#2 do inAfter = result
-//@   oncall wordInWords#3 check before-list: arg0 == lower && arg1 == DateWordsBefore
-//@   oncall wordInWords#3 do inBefore = result
-//@   ensures table: result == ite(inAbout, DateConstraintAbout, ite(inAfter, DateConstraintAfter, ite(inBefore, DateConstraintBefore, DateConstraintExact)))
+// (the three lists may be asked in any order: each answer is filed under the
+// list that was asked about, and the verdict is pinned where exactly one - or
+// none - of the asked lists has the word)
+//@   oncall wordInWords check about-the-lower-cased-word: arg0 == lower && (arg1 == DateWordsAbout || arg1 == DateWordsAfter || arg1 == DateWordsBefore)
+//@   oncall wordInWords when arg1 == DateWordsAbout do inAbout = result
+//@   oncall wordInWords when arg1 == DateWordsAfter do inAfter = result
+//@   oncall wordInWords when arg1 == DateWordsBefore do inBefore = result
+//@   ensures about: implies(inAbout && !inAfter && !inBefore, result == DateConstraintAbout)
+//@   ensures after: implies(!inAbout && inAfter && !inBefore, result == DateConstraintAfter)
+//@   ensures before: implies(!inAbout && !inAfter && inBefore, result == DateConstraintBefore)
+//@   ensures exact: implies(!inAbout && !inAfter && !inBefore, result == DateConstraintExact)
 //@ func wordInWords
 //@   only C04
 //@   trusted
@@ -1659,8 +1663,10 @@ package gedcom
 //@   ghost made int = 0
 //@   oncall Node.Equals check about-the-child: arg1 == child
 //@   oncall Node.Equals do eq = result; eqOn = arg0
-//@   oncall NodeDiff.traverse#1 check to-the-entry-whose-left-equals: eq && arg0 == diffChild && eqOn == diffChild.Left
-//@   oncall NodeDiff.traverse#2 check to-the-entry-whose-right-equals: eq && arg0 == diffChild && eqOn == diffChild.Right
+// (which side of an entry is asked first is not the property's business: both
+// sites get the same check)
+//@   oncall NodeDiff.traverse#1 check to-an-entry-holding-an-equal-node: eq && arg0 == diffChild && (eqOn == diffChild.Left || eqOn == diffChild.Right)
+//@   oncall NodeDiff.traverse#2 check to-an-entry-holding-an-equal-node: eq && arg0 == diffChild && (eqOn == diffChild.Left || eqOn == diffChild.Right)
 //@   oncall NodeDiff.traverse#3 check to-a-new-entry: fresh(arg0)
 //@   oncall NodeDiff.traverse#3 do made = arg0
 //@   oncall NodeDiff.traverse do nTrav = nTrav + 1
@@ -1685,11 +1691,15 @@ package gedcom
 //@   opaque DeepEqualNodes
 //@   oncall Node.Equals check these-two: arg0 == left && arg1 == right
 //@   oncall Node.Equals do eq = result; eqAsked = eqAsked + 1
-//@   oncall Node.Nodes#1 check of-left: arg0 == left
-//@   oncall Node.Nodes#1 do L = result
-//@   oncall Node.Nodes#2 check of-right: arg0 == right
-//@   oncall Node.Nodes#2 do R = result
-//@   oncall DeepEqualNodes check the-two-child-lists: arg0 == L && arg1 == R && len(L) == len(R) && (left == right || (eqAsked == 1 && eq))
+// (the two child lists may be fetched in either order)
+//@   oncall Node.Nodes check of-these-two: arg0 == left || arg0 == right
+//@   ghost nN int = 0
+//@   oncall Node.Nodes when left != right && arg0 == left do L = result
+//@   oncall Node.Nodes when left != right && arg0 == right do R = result
+//@   oncall Node.Nodes when left == right && nN == 0 do L = result
+//@   oncall Node.Nodes when left == right && nN == 1 do R = result
+//@   oncall Node.Nodes do nN = nN + 1
+//@   oncall DeepEqualNodes check the-two-child-lists: nN == 2 && ((arg0 == L && arg1 == R) || (left == right && arg0 == R && arg1 == L)) && len(L) == len(R) && (left == right || (eqAsked == 1 && eq))
 //@   oncall DeepEqualNodes do kids = result; nKids = nKids + 1
 //@   ensures nil-never-equal: implies(isnil(left) || isnil(right), !result)
 //@   ensures children-decide: implies(result, nKids == 1 && kids) && implies(nKids == 1, result == kids)
